@@ -25,17 +25,23 @@ SOLVE_NOTE = ("trusts the projection, the exact-decimal transcription of floats 
               "decided for the generated input classes (<= 12 components, |V| in [0.5, 1000], loads >= 1 uA), not to the last bit")
 
 
-def _solve(text, design):
-    return dict(technique="trace validation by TLC: every recorded solve()/rail_rep() table is checked against the TLA+ relations of Elec.tla / TraceSolve.tla; structures come from TLC simulation of the construction model",
-                text=text, note=SOLVE_NOTE, design=design)
+def _solve(text, design, mc=""):
+    return dict(technique="TLC model checking of the specification (" + (mc or "MCSkel.tla: discrete skeleton invariants on every small tree") + ") + trace validation by TLC: every recorded solve()/rail_rep() "
+                          "table of the real library is checked against the TLA+ relations of Elec.tla / TraceSolve.tla; structures come from TLC (simulated construction histories, "
+                          "the enumerated skeleton / coverage-matrix states) and from the repository's own test-suite run under a recorder",
+                text=text + " Also validated: solve - edit - solve sequences, the system as configured (the final state of the TLC construction behaviour) against the projected state, "
+                            "and every solve() table of the repository's test-suite.", note=SOLVE_NOTE, design=design)
 
 
 CHECKS.update({
     "C01": _solve("Every component row of every recorded solve() table (numeric instantiations of TLC-generated power trees: all 11 kinds, constant/1-D/2-D parameters, both polarities, "
                   "1-3 sources, mux, phases) must satisfy the neighbour links (Vin = Vout of the supplier, Iout = sum of the children it supplies) and the documented transfer law of its kind, "
-                  "stated division-free over exact decimals in Elec.tla.", "DESIGN.md 7 (C01)"),
+                  "stated division-free over exact decimals in Elec.tla.", "DESIGN.md 7 (C01)",
+                  mc="MCLaws.tla: the functional form of every law is accepted and its perturbation rejected by the relations, Mirror; MCSkel.tla: skeleton invariants"),
     "C02": _solve("Per row: Power/Loss accounting, loss range, efficiency formula and range, load booked as Power xor Loss, Power - Loss = |Vout| x Iout, thermal rise and peak; per phase: "
-                  "source power = load power + losses. All as TLA+ clauses evaluated by TLC on recorded tables with ta in {-40,0,25,85}.", "DESIGN.md 7 (C02)"),
+                  "source power = load power + losses, and the documented loss expression of every kind on the row's own quantities (LossLaw, exact class). All as TLA+ clauses evaluated "
+                  "by TLC on recorded tables with ta in {-40,0,25,85}.", "DESIGN.md 7 (C02)",
+                  mc="MCLaws.tla: EnergyRow, LossBounds, EffRange, PassiveNoGain are theorems of the documented laws on a parameter / operating-point lattice for all 11 kinds"),
     "C04": _solve("The discrete skeleton (OutLive/InLive, derived from the abstract state alone) predicts which rows must be exactly zero and which components sleep; TLC checks every recorded row "
                   "of systems with 0 V / phase-inactive sources, inactive converters/regulators/switches/muxes and muxes without live input.", "DESIGN.md 7 (C04)"),
     "C05": _solve("For every recorded mux row: input voltage = output of the first live input, output law with the on-resistance of that input, input current law, only the selected input is "
@@ -69,10 +75,13 @@ CHECKS.update({
                      "every kind non-default and default, TLC compares the projected abstract state of the reloaded system with the original (component payloads, ordered mux inputs, rails, groups, "
                      "phase tables) and the solve/rail_rep/params/limits/phases reports as row sets; documents stamped with versions around the installed one must be refused iff newer.",
                 note=TWIN_NOTE + "; limits compared on applicable keys", design="DESIGN.md 7 (C12)"),
-    "C16": dict(technique="TLA+ edit model (SysTree) + trace validation of replayed histories (TraceEdit.tla) + report equality against a freshly built system (Twin.tla)",
+    "C16": dict(technique="TLA+ edit model (SysTree, TLC) + trace validation of replayed histories (TraceEdit.tla) + report equality against a freshly built system (Twin.tla) + "
+                          "params()/limits()/phases()/tree() as relations to the abstract state (TraceReports.tla)",
                 text="Every accepted edit of TLC-generated histories must leave exactly the state the documented effect of the edit yields (C16.Structure, judged with the SysTree actions); at the end of "
                      "every simulated history and in every state of the bounded edit graph all reports must succeed, list exactly the live components, and equal the reports of a system built from "
-                     "scratch from the projected state in canonical and in randomly permuted order.", note=TWIN_NOTE, design="DESIGN.md 7 (C16)"),
+                     "scratch from the projected state in canonical and in randomly permuted order; params(limits=True), limits(), phases() and tree() must show exactly the "
+                     "configured parameters (tables as 'interp'), non-default applicable limits, per-phase values and links (ParamsOK, LimitsOK, PhasesOK, TreeOK). Histories: general, mux-focused, "
+                     "delete-then-regrow, with analyses in the middle, and the repository's own test-suite.", note=TWIN_NOTE, design="DESIGN.md 7 (C16), 15.3a"),
     "C17": dict(technique="TLA+ state machine of batt_life (Batt.tla, TLC) + fault-injected trace validation (TraceBatt.tla) + read-only clauses on recorded analysis calls (TraceEdit.tla, Twin.tla)",
                 text="BattRestored is an invariant of Batt.tla (every terminal state carries the user's source parameters). The real batt_life is run with a failure injected at the k-th probe / "
                      "deplete / solver call and on normal return; TLC requires the battery Source to be unchanged afterwards. Random interleavings of all eleven analyses (argument variety) are "
